@@ -187,6 +187,7 @@ func c20Fates(r *c20Result, parked []string) string {
 	if len(out) == 0 {
 		return ""
 	}
+	sort.Strings(out)
 	return " [" + strings.Join(out, "; ") + "]"
 }
 
@@ -204,6 +205,7 @@ func c20Verdict0(base *c20Result, r *c20Result) (fp, what string) {
 		for _, b := range r.Blocked {
 			roles = append(roles, normDeadlock(b))
 		}
+		sort.Strings(roles)
 		return "thread-left-blocked-after-return{" + strings.Join(roles, ",") + "}" + c20Fates(r, r.Blocked), fmt.Sprintf("Readline returned %q but these threads are still parked for ever: %v", r.Line, r.Blocked)
 	}
 	if base != nil && (r.Line != base.Line || r.Err != base.Err) {
